@@ -90,17 +90,29 @@ class ShardResult:
             if ok:
                 self.known_hits[fid] += 1
                 return
-        if len(self.deviations) < self.MAX_DEV:
-            self.deviations.append(d)
-        else:
-            # keep at least one per signature
-            sigs = {x["sig"] for x in self.deviations}
-            if d["sig"] not in sigs:
-                self.deviations.append(d)
+        if len(self.deviations) < self.MAX_DEV or d["sig"] not in {x["sig"] for x in self.deviations}:
+            # (beyond the cap: keep at least one per signature.)  Stored deviations travel between processes and into
+            # replay files: live library objects are replaced by their repr
+            self.deviations.append(_plain(d))
 
     def sample(self, s, cap=3):
         if len(self.samples) < cap:
             self.samples.append(s)
+
+
+def _plain(x, depth=0):
+    """JSON-able copy: primitives, lists, string-keyed dicts; anything else (live objects, exceptions) by repr"""
+    if x is None or isinstance(x, (bool, int, float, str)):
+        return x
+    if depth > 12:
+        return repr(x)[:300]
+    if isinstance(x, (list, tuple)):
+        return [_plain(y, depth + 1) for y in x]
+    if isinstance(x, dict):
+        return {(k if isinstance(k, str) else repr(k)): _plain(v, depth + 1) for k, v in x.items()}
+    if isinstance(x, (set, frozenset)):
+        return sorted((_plain(y, depth + 1) for y in x), key=repr)
+    return repr(x)[:300]
 
 
 def _worker(args):
